@@ -18,6 +18,17 @@ Has(r, f) == f \in DOMAIN r
 \* Tags starting with "P:" are property-tier predicates, "S:" strict-tier (DESIGN 7.1).
 Chk(cond, tag) == IF cond THEN TRUE ELSE TLCSet(1, <<l, tag>>) /\ FALSE
 
+\* Property-tagged conjunct.  `pids` is the set of properties the predicate belongs to.  A check
+\* run enforces the properties named by environment variables F_<id> (e.g. F_C01=1); predicates of
+\* other properties are evaluated and reported (NONFOCUS) but do not reject the trace, so that one
+\* property's known defect cannot mask another property's predicates later in the same run.
+Focus(pid) == ("F_" \o pid) \in DOMAIN IOEnv \/ "F_ALL" \in DOMAIN IOEnv
+ChkP(cond, pids, what) ==
+    IF cond THEN TRUE
+    ELSE IF \E q \in pids : Focus(q)
+         THEN TLCSet(1, <<l, "P:" \o (CHOOSE q \in pids : Focus(q)) \o ":" \o what>>) /\ FALSE
+         ELSE PrintT(<<"NONFOCUS", l, pids, what>>)
+
 \* progress register (2): highest event index consumed
 Seen == TLCSet(2, l)
 
